@@ -27,6 +27,8 @@ def check(prog: Program, run: Run) -> None:
     run.rule("C03.R3", "computed results are rounded to nearest, never truncated", floor=5)
     run.rule("C03.R4", "DataObjectProperty converts only what its validity gate accepted and "
              "encodes/decodes the converted value", floor=4)
+    run.rule("C03.R5", "the encoder accepts every value the decoder can produce for the same "
+             "encoding (two's-complement minimum)", floor=1)
     run.rule("C03.G5", "absent values are tested by identity, not truthiness", floor=2)
     compu.linear_forms(prog, run, "C03.R2", "C03.R1")
     compu.validity_vs_conversion(prog, run, "C03.R2")
@@ -34,5 +36,7 @@ def check(prog: Program, run: Run) -> None:
     compu.texttable_roles(prog, run, "C03.R2")
     compu.rounding(prog, run, "C03.R3")
     compu.dop_gates(prog, run, "C03.R4")
+    from . import c04
+    c04.twoc_minimum_is_exact(prog, run, "C03.R5")
     common.g5_absence_by_truthiness(prog, run, "C03.G5", [
         "odxtools/compumethods/*.py", "odxtools/dataobjectproperty.py", "odxtools/dtcdop.py"])
